@@ -759,6 +759,15 @@ func resolveVariantFailure(s *QSpec, o ropt, tag string, n int64) {
 	if o.Alias {
 		fs = append(fs, "alias-operator")
 	}
+	switch o.Sep {
+	case 1:
+		fs = append(fs, "double-blank-separator")
+	case 2:
+		fs = append(fs, "tab-separator")
+	}
+	if o.RootParens {
+		fs = append(fs, "parenthesised-root")
+	}
 	oo := o
 	reportN(e.clause, joinFeatures(fs), e.disc, e.detail, witness{Kind: "variant", Spec: s, Go: s.goExpr(), Opt: &oo, Text: text}, s.cost(), s.key()+fmt.Sprint(o), n)
 }
@@ -1113,6 +1122,10 @@ func startWatchdog(c *vlib.Ctx) {
 	for i := range beats {
 		beats[i] = &heartbeat{}
 	}
+	limit := 120 * time.Second
+	if v, err := time.ParseDuration(os.Getenv("C11_WATCHDOG")); err == nil && v > 0 {
+		limit = v // for demonstrating the watchdog only
+	}
 	go func() {
 		last := make([]int64, len(beats))
 		since := make([]time.Time, len(beats))
@@ -1127,9 +1140,9 @@ func startWatchdog(c *vlib.Ctx) {
 				if s < 0 { // idle marker
 					continue
 				}
-				if time.Since(since[i]) > 120*time.Second {
+				if time.Since(since[i]) > limit {
 					t, _ := b.text.Load().(string)
-					report("parse-terminates", "ParseQuery", "no-return", fmt.Sprintf("ParseQuery(%q) did not return within 120 s", t), witness{Kind: "text", Text: t}, len(t), t)
+					report("parse-terminates", "ParseQuery", "no-return", fmt.Sprintf("ParseQuery(%q) did not return within %v", t, limit), witness{Kind: "text", Text: t}, len(t), t)
 					flush(c)
 					os.Exit(c.Finish())
 				}
@@ -1382,7 +1395,7 @@ func run(c *vlib.Ctx) {
 	vinfo := &variantInfo{}
 	opts := allOpts
 	gs := shapes(2, []int{1, 2, 3})
-	c.Scenario(fmt.Sprintf("variants: %d shapes x 2 rotations x %d spellings x 2 clause settings; %d shapes x each position x full leaf alphabet x %d spellings", len(gs), len(opts), len(xs), len(opts)))
+	c.Scenario(fmt.Sprintf("variants: %d shapes x 2 rotations x %d spellings x 2 clause settings; %d shapes x each position x full leaf alphabet x %d spellings", len(gs), len(opts), 155, len(opts)))
 	before = st.states
 	parallel(c, st, len(gs), func(i int, l *localStats, hb *heartbeat) {
 		for rot := 0; rot < 2; rot++ {
@@ -1393,11 +1406,12 @@ func run(c *vlib.Ctx) {
 			}
 		}
 	})
-	parallel(c, st, len(xs), func(i int, l *localStats, hb *heartbeat) {
-		n := countLeaves(xs[i])
+	vx := shapes(2, []int{0, 1, 2})
+	parallel(c, st, len(vx), func(i int, l *localStats, hb *heartbeat) {
+		n := countLeaves(vx[i])
 		for pos := 0; pos < n; pos++ {
 			for _, lf := range fl {
-				w := fill(xs[i], func(p int) *Node {
+				w := fill(vx[i], func(p int) *Node {
 					if p == pos {
 						return lf.clone()
 					}
@@ -1438,7 +1452,7 @@ func run(c *vlib.Ctx) {
 	}
 
 	// ---- stage P1: token strings ----
-	ptoks := []string{"query", "db:k", "where", "(", ")", "and", "or", "not", "a", "==", "1", "sameas", `"x y"`, "orderby", "limit", "é", `\`}
+	ptoks := []string{"query", "db:k", "where", "(", ")", "and", "or", "not", "a", "==", "1", "sameas", `"x y"`, "orderby", "limit", "é", `\`, `""`, "offset"}
 	seqCount := func(k, n int) int {
 		t, p := 0, 1
 		for i := 0; i <= n; i++ {
@@ -1518,7 +1532,7 @@ func run(c *vlib.Ctx) {
 
 	// ---- stage P3: condition-unit strings ----
 	units := []string{"a == 1", `b not sameas "x y"`, "c ex", "and", "or", "not", "(", ")"}
-	ulen := vlib.Pick(c, 7, 8)
+	ulen := vlib.Pick(c, 7, 9)
 	n4 := seqCount(len(units), ulen)
 	c.Scenario(fmt.Sprintf("parser input: 'query db:k where' + all %d strings of <= %d units over {3 conditions, and, or, not, (, )}, with and without trailing clauses", n4, ulen))
 	before = st.states
@@ -1526,7 +1540,9 @@ func run(c *vlib.Ctx) {
 		w := seqAt(units, i)
 		t := "query db:k where " + strings.Join(w, " ")
 		checkText(t, l, hb)
-		checkText(t+" orderby a limit 1", l, hb)
+		if len(w) < ulen || !thorough {
+			checkText(t+" orderby a limit 1", l, hb)
+		}
 		if tt, has := tight(append([]string{"query", "db:k", "where"}, w...)); has && len(w) <= ulen-1 {
 			checkText(tt, l, hb)
 		}
